@@ -445,6 +445,20 @@ def c10_family(tag, quick):
                                              {"a": "closeConn", "g": "C", "ctxMs": 2500}, {"a": "sleep", "ms": 150},
                                              {"a": "release", "gate": "hw"}, {"a": "join", "obj": "C"}, {"a": "join", "obj": "P1"}, {"a": "sleep", "ms": 100}]
                              + after_conn_calls() + tail})
+    # a stream Close whose close request the broker refuses (StreamNotFound) or never answers (Close ends by its context): Close has
+    # returned - with an error -, the stream is closed all the same: later calls fail with the stream-closed error
+    for how, rule, ctxms in (("refused", {"do": "code", "arg": NG}, 2000), ("unanswered", {"do": "drop"}, 300)):
+        use = [{"a": "sleep", "ms": 100},
+               {"a": "write", "g": "A1", "obj": "U1", "id": "A", "pts": [[52, 4]], "ctxMs": 3000, "wait": True},
+               {"a": "flush", "g": "A1", "obj": "U1", "ctxMs": 3000, "wait": True},
+               {"a": "read", "g": "A1", "obj": "D1", "ctxMs": 3000, "wait": True},
+               {"a": "closeUp", "g": "A1", "obj": "U1", "ctxMs": 3000, "wait": True},
+               {"a": "closeDown", "g": "A1", "obj": "D1", "ctxMs": 3000, "wait": True}]
+        scs.append({"id": "%s/streamCloseFails/%s" % (tag, how), "kind": "iscp", "conn": {},
+                    "steps": base() + [{"a": "rule", "rule": dict(rule, on="UpstreamCloseRequest", nth=1)}, {"a": "rule", "rule": dict(rule, on="DownstreamCloseRequest", nth=1)},
+                                       {"a": "closeUp", "g": "C", "obj": "U1", "ctxMs": ctxms, "wait": True},
+                                       {"a": "closeDown", "g": "C", "obj": "D1", "ctxMs": ctxms, "wait": True}] + use
+                             + [{"a": "closeConn", "g": "C", "ctxMs": 2000, "wait": True}] + after_conn_calls() + tail})
     # two overlapping Close calls on one stream: the first one's close request is still unanswered when the second call is made
     scs.append({"id": tag + "/overlappingStreamClose", "kind": "iscp", "conn": {},
                 "steps": [{"a": "holdHandler", "mode": "DownClosed", "n": 1, "gate": "hd"}, {"a": "holdHandler", "mode": "UpClosed", "n": 1, "gate": "hd"}]
